@@ -20,6 +20,8 @@ def tasks(tier, seed):
         ts += [dict(t, what="d2r") for t in gen.dfa_src_tasks(2, "abc", 2, stride=7, pools=(0, 2))]
         ts += [{"kind": "rnd_dfa", "count": 250, "seed": seed * 10 + i, "what": "d2r", "maxk": 4,
                 "alphabets": ["ab", "abc", "01"]} for i in range(2)]
+        ts += [dict(t, what="orders") for t in gen.dfa_src_tasks(3, "ab", 4, stride=41, pools=(0,))]
+        ts += [dict(t, what="orders") for t in gen.dfa_src_tasks(2, "ab", 1, stride=1, pools=(0,))]
     else:
         ts += [{"kind": "exh_re", "ops": o, "part": i, "parts": 4} for o in (0, 1, 2) for i in range(4)]
         ts += [{"kind": "exh_re", "ops": 3, "part": i, "parts": 16} for i in range(16)]
@@ -30,6 +32,9 @@ def tasks(tier, seed):
         ts += [dict(t, what="d2r") for t in gen.dfa_src_tasks(4, "ab", 32, stride=331, pools=(0, 1, 2, 3))]
         ts += [{"kind": "rnd_dfa", "count": 1200, "seed": seed * 10 + i, "what": "d2r", "maxk": 5,
                 "alphabets": ["ab", "abc", "01"]} for i in range(16)]
+        ts += [dict(t, what="orders") for t in gen.dfa_src_tasks(3, "ab", 16, stride=3, pools=(0,))]
+        ts += [dict(t, what="orders") for t in gen.dfa_src_tasks(2, "ab", 1, stride=1, pools=(0,))]
+        ts += [dict(t, what="orders") for t in gen.dfa_src_tasks(4, "ab", 16, stride=4001, pools=(0,))]
     return gen.spread(ts, hs)
 
 
@@ -86,6 +91,51 @@ def rip_trace(D, pre, src):
         return
     yield {"op": "rip_trace", "fa": pre, "gnfa": out[0], "rips": out[1], "res": out[2], "qs": out[3], "qa": out[4],
            "src": src}
+
+
+ORDER_NAMES = ["s0", "s1", "s2", "q", "p", "r", "x", "y", "z", "A", "B", "u1", "v2", "w3", "n", "m"]
+
+
+def all_orders_events(src):
+    """(G) every elimination order of a small DFA forced onto the real gnfa_minimize WITHOUT touching the code:
+    `for q_rip in Q - {start, accept}` follows the hash order of the state names, so the states are renamed
+    (an isomorphic DFA) until the hook has reported each of the k! orders.  Every run is judged like any other
+    dfa_to_re / rip_trace event; src records the renaming, so a replay takes the same order."""
+    import itertools
+    D0 = gen.build_dfa(src)
+    Q = sorted(D0.Q)
+    want = set(itertools.permutations(range(len(Q))))
+    seen = set()
+    tries = 0
+    if src.get("rename"):
+        cands = [tuple(src["rename"])]
+    else:
+        cands = itertools.permutations(ORDER_NAMES, len(Q))
+    for names in cands:
+        if seen == want or tries >= 400:
+            break
+        tries += 1
+        D = U.rename_fa(D0, dict(zip(Q, names)))
+        pre = ab.dfa(D)
+        evs = list(rip_trace(D, pre, dict(src, rename=list(names))))
+        if not evs:
+            continue
+        inv = {ab.enc(n): i for i, n in enumerate(names)}
+        order = tuple(inv[q] for q in evs[0]["rips"])
+        if order in seen and not src.get("rename"):
+            continue
+        seen.add(order)
+        e = evs[0]
+        e["forced_order"] = list(order)
+        e["orders_wanted"] = len(want)
+        yield e
+        # the regexp of the one-call API for the same automaton under the same names: judged for equivalence
+        from gambatools.regexp_algorithms import dfa_to_regexp
+        r, exc = guarded(lambda: dfa_to_regexp(D), 30)
+        ev = {"op": "dfa_to_re", "fa": pre, "exc": exc, "src": dict(src, rename=list(names)), "rip_order": e["rips"]}
+        if exc == "none":
+            ev["res"] = ab.regexp(r)
+        yield ev
 
 
 def thompson_line(line):
@@ -148,6 +198,9 @@ def drive(task):
         for i in range(task["count"]):
             r = U.random_regexp(rng, rng.choice([2, 3, 4, 5, 6, 8]), rng.choice(["ab", "abc", "a", "01"]))
             yield from re_events(r, {"kind": "re"})
+    elif task.get("what") == "orders":
+        for src in gen.dfa_srcs(task):
+            yield from all_orders_events(dict(src, orders=1))
     else:
         for i, src in enumerate(gen.dfa_srcs(task)):
             if i % 7 == 6:
@@ -160,6 +213,8 @@ def redrive(src):
         yield from thompson_line(src["line"])
     elif src["kind"] == "re":
         yield from re_events(c05.from_abs(src["re"]), {"kind": "re"})
+    elif src.get("orders"):
+        yield from all_orders_events(src)
     else:
         yield from dfa_events(src)
 
@@ -211,6 +266,19 @@ def rip_orders(res, done):
                     perm = tuple(Q.index(q) for q in e["rip_order"])
                     seen.setdefault(len(Q), {}).setdefault(str(perm), 0)
                     seen[len(Q)][str(perm)] += 1
+    forced = {}
+    for ln in _rip_lines(done):
+        if '"forced_order"' in ln:
+            e = json.loads(ln)
+            key = json.dumps({k: v for k, v in e["src"].items() if k != "rename"}, sort_keys=True)
+            forced.setdefault(key, [e["orders_wanted"], set()])[1].add(tuple(e["forced_order"]))
+    res.notes["elimination_orders_forced_by_renaming"] = {
+        "automata": len(forced), "orders_wanted": sum(v[0] for v in forced.values()),
+        "orders_taken_by_the_code": sum(len(v[1]) for v in forced.values()),
+        "note": "for each of these DFAs the states were renamed until gnfa_minimize (unchanged code) had eliminated them in "
+                "every one of the k! orders; each run validated against GnfaRip!RipLabels and judged for equivalence"}
+    if forced and sum(len(v[1]) for v in forced.values()) < sum(v[0] for v in forced.values()):
+        res.notes["elimination_orders_forced_by_renaming"]["incomplete"] = True
     res.notes["rip_traces_validated_against_GnfaRip"] = sum(1 for _ in _rip_lines(done))
     res.notes["elimination_orders_observed"] = {"by_number_of_states": seen,
                                                 "note": "GnfaRip.tla checks ALL orders; the hook reports which ones the hash "
